@@ -1,6 +1,7 @@
 import QV.Base.Quirks
 import QV.Model.Circuit
 import QV.Model.Types
+import QV.Base.BExp
 /-!
 # Grover search: constructor gate list, default iteration count, reduced amplitude model
 
@@ -207,5 +208,61 @@ def CleanXorOracle (n nq ret : Nat) (og : List AGate) (f : BState → Bool) : Pr
   n ≤ ret ∧ ret < nq ∧ allClassical og = true ∧ (∀ g ∈ og, ∀ w ∈ g.wires, w < nq) ∧
   ∀ x : BState, x.length = n → ∀ r : Bool,
     runClassical og (oracleState nq ret x r) = oracleState nq ret x (xor r (f x))
+
+/-! ## 5. Quirk-model of the one optimizer step through which a listed defect reaches Grover
+
+`qlasskit/boolopt/exp_transformers.py:transform_or2xor.visit_Or` rewrites
+`Or(And(a, b, …), And(¬a, ¬b, …))` to `¬Xor(a, b)` looking only at the **first two** arguments of
+each `And` (quirk `or2xorNoArity`; off = the rewrite requires both `And`s to be binary).  A
+predicate with two complementary minterms (e.g. `a == 0 or a == 7` on three bits) is thereby
+compiled to an oracle marking a *different* solution set, and Grover amplifies that set. -/
+
+/-- sympy `Not(e)`: double negation is removed -/
+def negOf : BExp → BExp
+  | .not x => x
+  | x => .not x
+
+/-- the guard of `visit_Or` -/
+def or2xorFires (q : Quirks) : List BExp → Bool
+  | [.and (a0 :: a1 :: r0), .and (b0 :: b1 :: r1)] =>
+    ((b0 == negOf a0 && b1 == negOf a1) || (negOf b0 == a0 && negOf b1 == a1))
+      && (q.or2xorNoArity || (r0.isEmpty && r1.isEmpty))
+  | _ => false
+
+mutual
+/-- `transform_or2xor().visit(e)` (top-down; the visited `a`, `b` are read off the visited list) -/
+def or2xor (q : Quirks) : BExp → BExp
+  | .tt => .tt
+  | .ff => .ff
+  | .sym n => .sym n
+  | .not e => .not (or2xor q e)
+  | .and l => .and (or2xorList q l)
+  | .or l =>
+    let l' := or2xorList q l
+    if or2xorFires q l then
+      match l' with
+      | .and (a :: b :: _) :: _ => .not (.xor [a, b])
+      | _ => .or l'
+    else .or l'
+  | .xor l => .xor (or2xorList q l)
+  | .ite c t e => .ite (or2xor q c) (or2xor q t) (or2xor q e)
+  | .imp a b => .imp (or2xor q a) (or2xor q b)
+def or2xorList (q : Quirks) : List BExp → List BExp
+  | [] => []
+  | e :: es => or2xor q e :: or2xorList q es
+end
+
+/-- solution set of a predicate over the argument bits `names` (index bit i = `names[i]`) -/
+def solutionsOf (names : List String) (e : BExp) : List Nat :=
+  (List.range (2 ^ names.length)).filter fun k => e.eval (assignment names k)
+
+/-- predicted probability `(numerator, denominator)` of reading `x` when the predicate `e`, declared
+to have `M` solutions, goes through the `or2xor` step and the result is compiled to a clean
+xor-oracle: the recurrence runs with the solution set of the *rewritten* predicate -/
+def predicateDist (q : Quirks) (names : List String) (e : BExp) (M x : Nat) : Option (Int × Int) :=
+  let S' := solutionsOf names (or2xor q e)
+  (kDefault names.length M).map fun k =>
+    let pr := predict names.length S'.length k
+    (if S'.contains x then pr.1 else pr.2.1, pr.2.2)
 
 end QV.Grover
